@@ -110,3 +110,4 @@ open Csproto
 #print axioms Csproto.C01.Source.source_roundtrip_packed_sint32
 #print axioms Csproto.C01.Source.source_roundtrip_int64
 #print axioms Csproto.C01.Source.source_roundtrip_int32
+#print axioms Csproto.Bridge.EncoderFuncs.EncodeMapEntryHeader_refines
